@@ -284,6 +284,11 @@ var c14cycles = []struct{ desc, body string }{
 	{"augment into itself", "container c { } augment \"/c\" { container c { } } augment \"/c/c\" { uses g; } grouping g { leaf l { type string; } }"},
 	{"augment target is the augment's own child", "augment \"/c/d\" { leaf l { type string; } } container c { } augment \"/c\" { container d { } }"},
 	{"uses of an unknown grouping", "uses nosuch;"},
+	{"leafref to a container, a list, a choice and a leaf-list", "container c { leaf x { type string; } } list l { key k; leaf k { type string; } } leaf-list ll { type string; } leaf a { type leafref { path \"/c\"; } } leaf b { type leafref { path \"/l\"; } } leaf d { type leafref { path \"/ll\"; } }"},
+	{"modifier outside a pattern", "leaf a { type int8 { range \"1..2\" { modifier invert-match; } } } leaf b { type string { length 3 { modifier invert-match; } pattern x { modifier invert-match; } } }"},
+	{"config, mandatory, default and key in rpc and notification content", "notification n { leaf a { type string; config true; mandatory true; } container c { config false; } } rpc r { input { leaf a { type string; config false; default x; } } output { list l { key k; config true; leaf k { type string; } } } }"},
+	{"belongs-to in a module", "belongs-to x { prefix x; } leaf a { type nosuch; }"},
+	{"statements in places they do not belong", "leaf a { type string; container c { } key k; } container c { type string; enum x; } list l { key k; leaf k { type string; } value 3; position 2; } choice ch { leaf-list ll { type string; } key z; }"},
 	{"statements given twice", "typedef t { type string; default a; default b; } leaf l { type string; default a; default b; units u; units v; description x; description y; } choice c { default a; default a; case a { leaf q { type string; } } } container k { presence a; presence b; config true; config false; }"},
 	{"list with two key statements and leaf with two types", "list l { key a; key b; leaf a { type string; } leaf b { type string; type int8; } }"},
 	{"type of an unknown typedef", "leaf x { type nosuch; }"},
@@ -371,7 +376,7 @@ func C14(c *core.Ctx) {
 		for i := 0; i < nMut; i++ {
 			k := r.Intn(len(toks))
 			var mut []string
-			kind := core.Pick(r, []string{"truncate", "delete", "duplicate", "substitute", "substitute", "bytes"})
+			kind := core.Pick(r, []string{"truncate", "delete", "duplicate", "substitute", "substitute", "bytes", "cut"})
 			switch kind {
 			case "truncate":
 				mut = toks[:k]
@@ -381,6 +386,9 @@ func C14(c *core.Ctx) {
 				mut = append(append(append([]string{}, toks[:k+1]...), toks[k]), toks[k+1:]...)
 			case "substitute":
 				mut = append(append(append([]string{}, toks[:k]...), core.Pick(r, c14subst)), toks[k+1:]...)
+			case "cut":
+				// cut anywhere, also inside a token or right behind a backslash
+				mut = []string{text[:r.Intn(len(text))]}
 			case "bytes":
 				// a byte overwritten, dropped or inserted anywhere
 				bs := []byte(text)
@@ -441,7 +449,8 @@ func C14(c *core.Ctx) {
 	}
 	var lines []string
 	var graphCases []int
-	for _, gr := range graphs {
+	for gi, gr := range graphs {
+		revDates := gi%2 == 1 // every other graph states a revision-date on its imports
 		files := map[string]string{}
 		var names []string
 		for n := range gr.edges {
@@ -451,7 +460,11 @@ func C14(c *core.Ctx) {
 		for _, n := range names {
 			t := hdr(n)
 			for _, im := range gr.edges[n] {
-				t += fmt.Sprintf("  import %s { prefix p%s; }\n", im, im)
+				if revDates {
+					t += fmt.Sprintf("  import %s { prefix p%s; revision-date 2020-01-01; }\n", im, im)
+				} else {
+					t += fmt.Sprintf("  import %s { prefix p%s; }\n", im, im)
+				}
 			}
 			files[n] = t + "  leaf l" + n + " { type string; }\n}"
 		}
@@ -476,6 +489,8 @@ func C14(c *core.Ctx) {
 	add(c14case{Desc: "a submodule where a module is expected", Files: map[string]string{"a": hdr("a") + "import s { prefix s; }\n}", "s": sub}, Main: "a"})
 	add(c14case{Desc: "submodule loaded as the main file", Files: map[string]string{"s": sub}, Main: "s"})
 	add(c14case{Desc: "submodule belongs to another module", Files: map[string]string{"a": hdr("a") + "include s;\n}", "s": "submodule s { belongs-to zz { prefix zz; } leaf x { type string; } }"}, Main: "a"})
+	add(c14case{Desc: "a file that declares another module name and imports its own file name", Files: map[string]string{"a": hdr("a") + "import b { prefix b; }\n}", "b": hdr("c") + "import b { prefix b; }\n}"}, Main: "a"})
+	add(c14case{Desc: "two files declaring each other's names", Files: map[string]string{"a": hdr("b") + "import b { prefix x; }\n}", "b": hdr("a") + "import a { prefix y; }\n}"}, Main: "a"})
 	add(c14case{Desc: "module name differs from the file asked for", Files: map[string]string{"a": hdr("other") + "}"}, Main: "a"})
 	// (f) opener faults
 	for _, fault := range []string{"missing", "open-error", "read-error"} {
@@ -514,7 +529,7 @@ func C14(c *core.Ctx) {
 		b.WriteString("typedef t1000 { type int8; }\nleaf l { type t0; }\n")
 		return b.String()
 	}() + "}"}, Main: "x"})
-	for _, tail := range []string{"leaf a { type string; } x:ext", "leaf a { type string; } x:ext\n}", "leaf a { type string; description", "leaf a { type string; description \"x\" +", "leaf a { type", "container", "x:ext arg", "x:ext 'arg' {", "leaf a { type string; } } }", "import", "revision", "leaf a { type string { pattern"} {
+	for _, tail := range []string{"leaf a { type string; } x:ext", "leaf a { type string; } x:ext\n}", "leaf a { type string; description", "leaf a { type string; description \"x\" +", "leaf a { type string; description \"abc\\", "leaf a { type string; description \"abc\\\\", "leaf a { type string; description 'abc\\", "leaf a { type", "container", "x:ext arg", "x:ext 'arg' {", "leaf a { type string; } } }", "import", "revision", "leaf a { type string { pattern"} {
 		add(c14case{Desc: "text cut off: …" + tail, Files: map[string]string{"x": hdr("x") + "extension ext;\n" + tail}, Main: "x"})
 	}
 	add(c14case{Desc: "only white space", Files: map[string]string{"x": "  \n\t "}, Main: "x"})
